@@ -1,6 +1,9 @@
 // C09 — TLV encoding round-trips and never emits or accepts a mis-sized element.
 // Oracle: reference encoder / strict decoder in ref/tlv (independent of libksi).
 #include "ksi_util.hpp"
+#include "simnet.hpp"
+#include <netinet/in.h>
+#include <arpa/inet.h>
 #include <cstdio>
 #include <sys/socket.h>
 #include <unistd.h>
@@ -297,12 +300,18 @@ static void streamReaders(Dec &d, Case &c, const Bytes &stream) {
     size_t bufSizes[3] = {refOk ? tot : 70000, 70000, refOk && tot > 2 ? tot - 1 : 3};
     for (int v = 0; v < 3 && !c.fail; v++) {
         size_t bs = bufSizes[v]; if (bs < 2) bs = 2;
-        for (int rd = 0; rd < 2 && !c.fail; rd++) {
+        for (int rd = 0; rd < 3 && !c.fail; rd++) {
             HeapBuf ob(bs); size_t consumed = 0; KSI_FTLV ft; memset(&ft, 0, sizeof ft); int res; long after = -1;
             if (rd == 0) {
                 if (stream.empty()) continue;
                 HeapBuf in(stream); FILE *f = fmemopen(in.p, in.n, "rb"); if (!f) continue;
                 res = KSI_FTLV_fileRead(f, ob.p, bs, &consumed, &ft); after = ftell(f); fclose(f);
+            } else if (rd == 2) { // a simulated stream socket that hands the bytes out in generated segments (an element may arrive in many pieces)
+                if (stream.empty()) continue; sim::net().reset(); int fd = socket(AF_INET, SOCK_STREAM, 0); struct sockaddr_in a; memset(&a, 0, sizeof a); a.sin_family = AF_INET; a.sin_port = htons(1234); a.sin_addr.s_addr = htonl(0x7f000001);
+                if (fd < 0 || connect(fd, (struct sockaddr *)&a, sizeof a) != 0) { if (fd >= 0) close(fd); continue; } sim::Conn *cn = sim::net().byFd(fd); if (!cn) { close(fd); continue; }
+                cn->toClient.assign(stream.begin(), stream.end()); cn->peerClosed = true; std::vector<size_t> segs; for (int k = 0; k < 12; k++) segs.push_back(1 + d.pick(d.flag() ? 7 : 300)); size_t si = 0; unsigned calls = 0;
+                sim::net().recvChunk = [&](sim::Conn &, size_t, size_t want) -> size_t { calls++; size_t k = segs[si++ % segs.size()]; return k < want ? k : want; };
+                res = KSI_FTLV_socketRead(fd, ob.p, bs, &consumed, &ft); after = (long)cn->delivered; close(fd); sim::net().reset(); if (calls >= 4) c.cls("stream:many-segments");
             } else {
                 if (stream.size() > 60000) continue; // socketpair buffer limit
                 int sv[2]; if (socketpair(AF_UNIX, SOCK_STREAM, 0, sv)) continue;
@@ -314,7 +323,7 @@ static void streamReaders(Dec &d, Case &c, const Bytes &stream) {
                 after = (long)(stream.size() - (size_t)tl);
                 close(sv[0]); close(sv[1]);
             }
-            const char *who = rd == 0 ? "fileRead" : "socketRead";
+            const char *who = rd == 0 ? "fileRead" : (rd == 1 ? "socketRead" : "socketRead(segmented)");
             bool fitsBuf = refOk && bs >= tot;
             if (refOk && fitsBuf) {
                 if (res != KSI_OK) VF_FAIL(c, std::string("C09:stream:") + who + ":valid-refused", "complete element refused res=" + num(res));
@@ -347,7 +356,32 @@ static Bytes mutateEncoding(Dec &d, const Bytes &enc, std::string &how) {
     return b;
 }
 
+// ---- editing a parsed tree: children removed (possibly all of them) and appended through the list API, then serialized / cloned -----------
+static void editTree(Dec &d, Case &c) {
+    std::string shape; size_t budget = 4000; Tlv t = genTree(d, 0, budget, shape); if (!t.nested) { Tlv w(0x01); w.nested = true; w.kids.push_back(t); t = w; }
+    Bytes enc; if (!t.encode(enc)) { c.skip("tree does not encode"); return; } Ctx ctx; HeapBuf in(enc); KSI_TLV *root = nullptr;
+    if (KSI_TLV_parseBlob(ctx, in.p, in.n, &root) != KSI_OK) { VF_FAIL(c, "C09:edit:valid-refused", "reference encoding refused by KSI_TLV_parseBlob"); return; }
+    unsigned nops = 1 + d.pick(4); std::string ops; bool emptied = false;
+    for (unsigned o = 0; o < nops && !c.fail; o++) {
+        // choose the root or one of its nested children
+        Tlv *mn = &t; KSI_TLV *sn = root; KSI_LIST(KSI_TLV) *list = nullptr; if (KSI_TLV_getNestedList(sn, &list) != KSI_OK) { VF_FAIL(c, "C09:edit:nested-list", "nested list of a nested element not available"); break; }
+        if (d.flag()) { std::vector<size_t> nk; for (size_t i = 0; i < mn->kids.size(); i++) if (mn->kids[i].nested) nk.push_back(i); if (!nk.empty()) { size_t i = nk[d.pick((uint32_t)nk.size())]; KSI_TLV *ch = nullptr; KSI_TLVList_elementAt(list, i, &ch); KSI_LIST(KSI_TLV) *l2 = nullptr;
+                if (ch && KSI_TLV_getNestedList(ch, &l2) == KSI_OK) { mn = &mn->kids[i]; sn = ch; list = l2; ops += "/"; } } }
+        unsigned k = d.pick(4);
+        if (k == 0 || mn->kids.empty()) { Tlv nk(0x02 + d.pick(5)); nk.payload = d.bytes(d.pick(6)); KSI_TLV *nt = nullptr; KSI_TLV_new(ctx, nk.tag, 0, 0, &nt); KSI_TLV_setRawValue(nt, nk.payload.data(), nk.payload.size()); if (KSI_TLV_appendNestedTlv(sn, nt) != KSI_OK) { KSI_TLV_free(nt); VF_FAIL(c, "C09:edit:append", "append failed"); break; } mn->kids.push_back(nk); ops += "a"; }
+        else if (k == 1) { while (!mn->kids.empty()) { KSI_TLV *rm = nullptr; if (KSI_TLVList_remove(list, 0, &rm) != KSI_OK) { VF_FAIL(c, "C09:edit:remove", "remove failed"); break; } KSI_TLV_free(rm); mn->kids.erase(mn->kids.begin()); } ops += "E"; emptied = true; }
+        else { size_t i = d.pick((uint32_t)mn->kids.size()); KSI_TLV *rm = nullptr; if (KSI_TLVList_remove(list, i, &rm) != KSI_OK) { VF_FAIL(c, "C09:edit:remove", "remove failed"); break; } KSI_TLV_free(rm); mn->kids.erase(mn->kids.begin() + (long)i); ops += "r"; if (mn->kids.empty()) emptied = true; }
+    }
+    if (!c.fail) { Bytes want; bool fits = t.encode(want); unsigned char *raw = nullptr; size_t n = 0; int res = KSI_TLV_serialize(root, &raw, &n);
+        if (fits) { if (res != KSI_OK) VF_FAIL(c, "C09:edit:serialize-refused", "edited tree refused by the serializer res=" + num(res)); else if (Bytes(raw, raw + n) != want) VF_FAIL(c, emptied ? "C09:edit:serialization-differs:after-emptying" : "C09:edit:serialization-differs", "serialization of the edited tree differs from the reference encoding (ops " + ops + "): got " + hexs(Bytes(raw, raw + n), 40) + " want " + hexs(want, 40));
+            if (!c.fail) { KSI_TLV *cl = nullptr; unsigned char *r2 = nullptr; size_t n2 = 0; int rc = KSI_TLV_clone(root, &cl); if (rc != KSI_OK) VF_FAIL(c, "C09:edit:clone-refused", "clone of the edited tree failed res=" + num(rc)); else if (KSI_TLV_serialize(cl, &r2, &n2) != KSI_OK || Bytes(r2, r2 + n2) != want) VF_FAIL(c, "C09:edit:clone-differs", "clone of the edited tree serializes differently"); KSI_free(r2); KSI_TLV_free(cl); } }
+        KSI_free(raw); }
+    KSI_TLV_free(root); c.nontrivial = true; c.cls("mode:edit"); if (emptied) c.cls("edit:element-emptied"); c.desc = "edit " + shape + " ops=" + ops;
+}
+
 void harness_case(Dec &d, Case &c) {
+    // an eighth of the cases (first choice byte >= 0xe0) edit a parsed tree; the byte is shared with the mode choice below so that older replay files keep their meaning
+    if (!d.empty() && d.p[d.i] >= 0xe0) { d.byte(); editTree(d, c); return; }
     unsigned mode = d.pick(8);
     std::string shape; size_t budget = 90000;
     Tlv t = (mode == 7 || mode == 3) ? genBoundary(d, shape) : genTree(d, 0, budget, shape);
